@@ -283,12 +283,13 @@ E(name, who, c, id, to, mintR, updateR, cmeta, n, u, h, d) ==
    n |-> n, u |-> u, h |-> h, d |-> d, ok |-> TRUE, panic |-> FALSE]
 
 Step(e) ==
-  LET r == Apply(st, e)
-      e2 == [e EXCEPT !.ok = r.ok, !.panic = r.panic]
-  IN /\ st' = r.st
-     /\ ev' = e2
-     /\ gh' = GhostStep(gh, st, e2, r.st)
-     /\ hist' = IF RecordHist THEN Append(hist, e2) ELSE hist
+  \* the singleton quantifier makes TLC evaluate Apply once per transition
+  \E r \in {Apply(st, e)} :
+    LET e2 == [e EXCEPT !.ok = r.ok, !.panic = r.panic] IN
+    /\ st' = r.st
+    /\ ev' = e2
+    /\ gh' = GhostStep(gh, st, e2, r.st)
+    /\ hist' = IF RecordHist THEN Append(hist, e2) ELSE hist
 
 ArgVals(V) == V \cup {KEEP}
 MintVals(V) == IF V = {} THEN {""} ELSE V    \* an empty value set: mint with "", never modify
